@@ -103,6 +103,30 @@ func (t *refTree) mth(a, b int) hash32 {
 
 func (t *refTree) root(n int) hash32 { return t.mth(0, n) }
 
+// rootWith returns MTH(D ++ extra) without changing the tree (sub-trees inside D come from the memo).
+func (t *refTree) rootWith(extra [][]byte) hash32 {
+	n0 := len(t.lh)
+	ex := make([]hash32, len(extra))
+	for i, d := range extra {
+		ex[i] = refLeafHash(d)
+	}
+	if n0+len(ex) == 0 {
+		return sha256.Sum256(nil)
+	}
+	var rec func(a, b int) hash32
+	rec = func(a, b int) hash32 {
+		if b <= n0 {
+			return t.mth(a, b)
+		}
+		if b-a == 1 {
+			return ex[a-n0]
+		}
+		k := splitPoint(b - a)
+		return refNodeHash(rec(a, a+k), rec(a+k, b))
+	}
+	return rec(0, n0+len(ex))
+}
+
 // path returns PATH(m, D[0:n]) (leaf level first) and for each element whether the sibling is the
 // right-hand node.
 func (t *refTree) path(m, n int) ([]hash32, []bool) { return t.subPath(m, 0, n) }
